@@ -494,7 +494,9 @@ class SharesManager(BaseManager):
             parent = parents[-1]
             parent.items |= shared_directory.items
 
-        self._cleanup_term_map()
+        # The removed directory object (and thus its items) can stay referenced,
+        # don't rely on the weak references to drop its items from the term map
+        self.rebuild_term_map()
 
         self._event_bus.emit_sync(SharedDirectoryChangeEvent(shared_directory))
 
